@@ -4,7 +4,7 @@ CONSTANTS
   Roles = {"r1", "r2"}
   KeyShapes <- SmallShapes
   ClientRoleChoices <- ClientChoicesSmall
-  Peers = {"untrusted", "trusted", "neighbour"}
+  Peers = {"untrusted", "trusted", "neighbour", "trusted6", "neighbour6"}
   Xffs = {"none", "one"}
   TlsIds = {"fp", "ca", "canoeku", "unk", "none"}
   HdrIds = {"fp", "ca", "none", "bad"}
